@@ -40,7 +40,11 @@ def run(ctx):
     if not any(b[1] == "malformed-grease-ech" for b in cres.tagged("BAD")):
         raise vlib.Machinery("binding canary: corrupted GREASE ECH extension was accepted")
     # HRR: identical bytes resent
-    scns, events, rej, _, _ = nc.run_nego(ctx, "c17", subset=lambda xs: [x for x in xs if x["id"] in ids], shards=4)
+    # (also with a client random that happens to contain the bytes fe 0d, the code point of the extension itself)
+    def hrr_subset(xs):
+        mine = [x for x in xs if x["id"] in ids]
+        return mine + [dict(x, rand_fe0d=True) for x in mine]
+    scns, events, rej, _, _ = nc.run_nego(ctx, "c17", subset=hrr_subset, shards=4)
     for r in rej:
         dd = nc.sig_detail(r["detail"])
         if r["kind"] in ("order", "timeout"):
